@@ -262,21 +262,23 @@ theorem C07_src_subtypeOf (G : GLang) (c : GCfg) (hcT : c.withCanonicalTypes = f
           typeUri G s.toTerm = .ok o)) :=
   addExpr_src_subtypeOf G c hcT hS hTy root origin g l hg id lbl t hC hnew cur inter g' n h o
 
-/-- **Stale source type.** A new source leaf whose STORED type is not canonical — for instance because it still shows
-a variable, even one the store has bound to a canonical type since — gets no `subtypeOf` triple at all (Python decides
-`expr.type in canon` by hashing the stored type object); its `type` triple points to the node of `normT G.store ty`. -/
+/-- **A source whose type is not canonical gets no `subtypeOf` triple** - the type being read through the final store
+(`normT G.store ty`). Before the repair of defect D30 Python decided `expr.type in canon` on the stored type object, so a
+source whose type variable had been bound to a canonical type AFTER the source was fixed got a `type` triple but no
+`subtypeOf` triple; see the example below for the repaired behaviour. -/
 theorem C07_src_stale (G : GLang) (c : GCfg) (root : Node) (origin : Option Node) (g : GState) (id : Nat)
-    (lbl : Option String) (ty : Term) (hC : inCanon G ty = false)
+    (lbl : Option String) (ty : Term) (hC : inCanon G (normT G.store ty) = false)
     (hnew : g.srcNodes.find? (fun p => p.1 == id) = none) (cur : Option Nat) (inter : Bool) (g' : GState) (n : Nat)
     (h : addExpr G c root origin g (.src id lbl ty) cur inter = .ok (g', n)) (s o : Node)
     (ht : (s, Node.tf "subtypeOf", o) ∈ g'.triples) : (s, Node.tf "subtypeOf", o) ∈ g.triples :=
   addExpr_src_stale G c root origin g id lbl ty hC hnew cur inter g' n h s o ht
 
-/-- a source stored with type `x0`, the store binds `x0 := B`: `type B`, no `subtypeOf` -/
+/-- a source stored with type `x0`, the store binds `x0 := B`: annotated as a source of type `B` (repaired behaviour) -/
 example : inCanon exGs (.var 0) = false ∧ normT exGs.store (.var 0) = tB.toTerm ∧
     ((addExpr exGs {} GraphEx.root none (initGraph exGs {}) (.src 0 none (.var 0)) (some 7) false).toOption.map
       (fun p => (p.2, p.1.triples)))
-    = some (7, [(.b 7, .tf "type", .ns "B"), (GraphEx.root, .tf "containsType", .ns "B")]) :=
+    = some (7, [(.b 7, .tf "type", .ns "B"), (.b 7, .tf "subtypeOf", .ns "B"), (GraphEx.root, .tf "containsType", .ns "B"),
+        (GraphEx.root, .tf "containsType", .ns "A"), (.b 7, .tf "subtypeOf", .ns "A")]) :=
   ⟨by decide, normT_stale_var, staleSrc_triples⟩
 
 end Tfv.C07Graph
